@@ -5,20 +5,21 @@ Contracts on the real operations.split_curve, split_surface_u, split_surface_v, 
   split     requires valid clamped knot vector(s) (normalised, as every object with the default normalize_kv=True
                      stores them), distinct knots farther apart than find_multiplicity's tolerance, x in the open
                      domain and equal to a knot or tolerance-separated from it, positive weights
-            ensures  exactly two new objects; piece k has its own domain [0, 1] (its knot vector is re-normalised by the
-                     setter) and  piece_k(t) == S(phi_k(t))  with phi_0(t) = lo + (x - lo) t, phi_1(t) = x + (hi - x) t;
+            ensures  exactly two new objects; with [d0, d1] the domain the piece reports (the knot-vector setter
+                     re-normalises, so it is [0, 1] on the pinned tree, but nothing is assumed about it) and [a, b] its
+                     sub-interval ([lo, x] resp. [x, hi]):  piece_k(phi^-1(u)) == S(u) for the affine phi: [d0, d1] -> [a, b];
                      the input's degree(s), knot vector(s), control points / weights and sizes are unchanged
             raises   GeomdlException when x is a domain end
   decompose ensures  one piece per non-empty knot interval (per pair of intervals for 'uv', u outermost), in order,
-                     piece_k(t) == S(k_k + (k_(k+1) - k_k) t); every piece has p + 1 control points and the Bezier knot
-                     vector [0]*(p+1) + [1]*(p+1) in each decomposed direction; input unchanged
+                     piece_k == S on [k_k, k_(k+1)] under the same affine correspondence; every piece has p + 1 control
+                     points and a Bezier knot vector [c]*(p+1) + [d]*(p+1), c < d, in each decomposed direction; input unchanged
 
-How "coincides everywhere" is checked: phi_k is a bijection of [0, 1] onto the piece's sub-interval [a, b] (a < b), so
-"for all t in [0,1]: piece_k(t) == S(phi_k(t))" is the same statement as "for all u in [a, b]:
-piece_k((u - a) / (b - a)) == S(u)".  The second form is used with ONE symbolic u over the whole domain of the
-original: on every path u lies in one sub-interval (or on the common end of two) and the piece(s) covering it are
-evaluated through the real evaluate_single at the pulled-back parameter.  This keeps every branch condition linear in
-the symbols (t * x < k would not be) and shows at the same time that the pieces cover the whole domain in order.
+How "coincides everywhere" is checked: phi is a bijection of the piece's domain onto its sub-interval [a, b] (a < b), so
+"for all t in the piece's domain: piece_k(t) == S(phi(t))" is the same statement as "for all u in [a, b]:
+piece_k(d0 + (d1 - d0) (u - a) / (b - a)) == S(u)".  The second form is used with ONE symbolic u over the whole domain
+of the original: on every path u lies in one sub-interval (or on the common end of two) and the piece(s) covering it
+are evaluated through the real evaluate_single at the pulled-back parameter.  This keeps every branch condition linear
+in the symbols (t * x < k would not be) and shows at the same time that the pieces cover the whole domain in order.
 """
 import itertools
 from fractions import Fraction
@@ -124,7 +125,7 @@ def _curve_shapes(tier):
                 if p == 4 and d == 3 and max(mult) > 2:
                     continue
                 out.append(dict(p=p, mult=mult, rational=False))
-        if tier == 'quick':
+        if tier == 'quick' and p == 2:                      # three distinct knots: one shape in quick, all in thorough
             out.append(dict(p=p, mult=[1, 1, 1], rational=False))
     for p, mult in ((1, [1]), (2, [1])) + (((2, [2]), (2, [1, 1])) if tier == 'thorough' else ()):
         out.append(dict(p=p, mult=mult, rational=True))
@@ -184,15 +185,17 @@ def decompose_curve(ctx, p, mult, rational):
 
 # ------------------------------------------------------------------------------------------------ surfaces
 def _split_surf_shapes(tier):
-    out = [dict(pu=2, pv=2, mu=[1], mv=[1], d='v', rational=False),
-           dict(pu=2, pv=1, mu=[1, 1], mv=[1], d='u', rational=False),
+    out = [dict(pu=2, pv=1, mu=[1, 1], mv=[], d='u', rational=False),
            dict(pu=2, pv=2, mu=[1], mv=[1], d='u', rational=False),
+           dict(pu=1, pv=2, mu=[], mv=[1], d='v', rational=False),
            dict(pu=2, pv=1, mu=[], mv=[1, 1], d='v', rational=False),
            dict(pu=2, pv=1, mu=[2], mv=[], d='u', rational=False),
            dict(pu=2, pv=1, mu=[], mv=[], d='u', rational=True),
            dict(pu=2, pv=1, mu=[], mv=[], d='v', rational=True)]
     if tier == 'thorough':
-        out += [dict(pu=1, pv=2, mu=[1], mv=[1, 2], d='v', rational=False),
+        out += [dict(pu=2, pv=2, mu=[1], mv=[1], d='v', rational=False),
+                dict(pu=2, pv=1, mu=[1, 1], mv=[1], d='u', rational=False),
+                dict(pu=1, pv=2, mu=[1], mv=[1, 2], d='v', rational=False),
                 dict(pu=3, pv=2, mu=[1, 2], mv=[1], d='u', rational=False),
                 dict(pu=3, pv=2, mu=[1], mv=[2, 1], d='v', rational=False),
                 dict(pu=2, pv=2, mu=[2, 1], mv=[1, 1], d='u', rational=False),
